@@ -3,7 +3,7 @@ from pyvc import components, runner
 from harness import components as hc
 
 FUNCS = ['PEPit/point.py::Point.eval', 'PEPit/expression.py::Expression.eval', 'PEPit/constraint.py::Constraint.eval',
-         'PEPit/constraint.py::Constraint.eval_dual', 'PEPit/psd_matrix.py::PSDMatrix.eval_dual']
+         'PEPit/constraint.py::Constraint.eval_dual', 'PEPit/psd_matrix.py::PSDMatrix.eval_dual', 'PEPit/psd_matrix.py::PSDMatrix.eval']
 
 
 def run(run):
